@@ -56,13 +56,15 @@ int main(int argc, char** argv) {
                 std::cout << "eq " << w[1] << " " << w[2] << " " << (prog.at(w[1]).eq(prog.at(w[2])) ? 1 : 0) << "\n";
             } else if (w[0] == "tape") {
                 const Tree& t = prog.at(w[1]);
-                Deck d(t);
+                // optimise ONCE and build the deck from that tree (Deck::Deck's own optimized() call is then the
+                // flag short-cut): the dumped tree, the node count and the deck all describe the same nodes
+                Tree o = t.optimized();
+                Deck d(o);
                 std::cout << "tape-of " << w[1] << " " << dumpDeck(d, varidx) << "\n";
                 std::cout << "tape-clauses " << w[1] << " " << dumpTape(*d.tape) << "\n";
-                // number of distinct nodes Deck::Deck walked (= its first clause id); pointer order may differ
-                // between two optimized() calls, the node count does not
-                std::cout << "tape-nflat " << w[1] << " " << t.optimized().walk().size() << "\n";
-                std::cout << "tape-opt " << w[1] << " " << dump(t.optimized()) << "\n";
+                // number of distinct nodes Deck::Deck walked (= its first clause id)
+                std::cout << "tape-nflat " << w[1] << " " << o.walk().size() << "\n";
+                std::cout << "tape-opt " << w[1] << " " << dump(o) << "\n";
             } else if (w[0] == "eval" || w[0] == "batch") {
                 const Tree& t = prog.at(w[1]);
                 size_t pos = 3;           // w[2] == "nv"
